@@ -36,3 +36,23 @@ Proof.
     | exact tbl_src_to_mir_function_list | exact tbl_src_to_literal_list | exact tbl_src_nada_dsl_to_nada_mir ].
 Qed.
 Print Assumptions C09_tables.
+
+(* the input table is exact with respect to the emitted operations: every input reference among them is
+   listed (complete), and every listed input is an Input operation of the traced program with that name,
+   owner, documentation and type (nothing foreign) — for ANY store and output list *)
+From NadaV.Proofs Require Import C18Proofs.
+Theorem C09_inputs_complete : forall st fs0 outs m fs',
+  compile st fs0 outs = Ok (m, fs') ->
+  forall e n, In e (m_ops m) -> e_op e = MInputRef n -> In n (map i_name (m_inputs m)).
+Proof. exact compile_inputs_complete. Qed.
+Print Assumptions C09_inputs_complete.
+
+Theorem C09_inputs_and_parties_from_the_program : forall st fs0 outs m fs',
+  compile st fs0 outs = Ok (m, fs') ->
+  (forall i, In i (m_inputs m) ->
+     exists k r, lookup k st = Some r /\ r_node r = AInput (i_name i) (i_party i) (i_doc i) /\ r_ty r = i_ty i)
+  /\ (forall p, In p (m_parties m) ->
+        In (p_name p) (map co_party outs)
+        \/ exists k r n doc, lookup k st = Some r /\ r_node r = AInput n (p_name p) doc).
+Proof. exact compile_inputs_parties. Qed.
+Print Assumptions C09_inputs_and_parties_from_the_program.
